@@ -330,7 +330,7 @@ def ob_simple_array_filters(chk, P, n_max):
 
 def ob_map_where_join(chk, P, n_max):
     with chk.obligation('map-where-join/arrays', "map returns, in order, the property of exactly the elements that are objects having it (nil and false included, missing skipped); where returns, in order, exactly the objects "
-                        "whose property is truthy (no target) or equal to the target; join concatenates the elements' text with the separator between consecutive elements",
+                        "whose property is truthy (no target) or equal to the target (a target that is present and nil selects the nil and false properties); join concatenates the elements' text with the separator between consecutive elements",
                         {'arrays': f'0..{n_max} elements; map/where: objects whose property is any i64 / nil / false / missing (map also: integers); join: one-character strings, empty strings and nils, separator of 0..2 characters',
                          'target': 'absent or any i64'}) as ob:
         ex = Executor(P, models_with([])); ex.seed = chk.seed; ex.max_steps = 200000
@@ -380,6 +380,10 @@ def ob_map_where_join(chk, P, n_max):
                         if got == sel: alts.append(z3.And(*[(e.p == t) if mk_ else (e.p != t) for e, mk_ in zip(ints, mask)]) if ints else z3.BoolVal(True))
                     return z3.Not(z3.Or(*alts)) if alts else z3.BoolVal(True)
                 run_case('where-eq', 'WhereFilter', wargs2, elems, st.clone(), expect_eq, "where: 'p', t", lambda m: {'t': m.eval(t, model_completion=True).as_signed_long()})
+                # a target that is PRESENT and nil is not an absent target: exactly the objects whose property equals nil (nil itself, and false by the value model's truth rule)
+                wargs3 = Adt('WhereArgs', None, [expr_stub(str_value('p'), 'property'), Some(expr_stub(VALUE_NIL, 'target'))], ['property', 'target_value'])
+                want_nil = [e.key for e in elems if e.prop_kind in ('nil', 'false')]
+                run_case('where-nil', 'WhereFilter', wargs3, elems, st.clone(), lambda got, want=want_nil: z3.BoolVal(got != want), "where: 'p', t", lambda m: {'t': None})
             for kinds in kinds_product(['str', 'nil', 'estr'], n):
                 for sep_n in range(3):
                     st = State(); elems = mk_elems(st, kinds)
@@ -514,6 +518,7 @@ def py_expect(name, vals, g, tpl_filter):
         key = tpl_filter.split("'")[1] if "'" in tpl_filter else 'p'
         out = [v[key] for v in vals if isinstance(v, dict) and key in v]
     elif name == 'where': out = [v for v in vals if isinstance(v, dict) and v.get('p') not in (None, False)]
+    elif name == 'where-nil': out = [v for v in vals if isinstance(v, dict) and 'p' in v and (v['p'] is None or v['p'] is False)]
     elif name == 'where-eq': out = [v for v in vals if isinstance(v, dict) and type(v.get('p')) is int and v.get('p') == g.get('t')]
     elif name in ('first', 'last'):
         return '[' + (render_of((vals[0] if name == 'first' else vals[-1])) if vals else '') + ']'
